@@ -131,7 +131,10 @@ def walk(term, mode, counter, log, target, acc=None):
         return walk(term[1], k, counter, log, target, acc)
     if k == 'iter':
         start = numbering(term[1], counter)
-        items = iterate(target)
+        def items(target=target):
+            # like the implementation, a target that cannot be iterated is only reported when the first item is asked for
+            yield from iterate(target)
+        items = items()
         # lazy, like the implementation: the sub-spec runs (and logs) when a later step consumes the iterator - in the mode of ITS position
         return LazyMap(lambda item: walk(term[1], mode, [start], log, item, acc), items)
     if k == 'group':
